@@ -24,14 +24,8 @@ export CARGO_NET_OFFLINE=true
   rm -f $L/verif/replays/*.json
   git -C $L/repo apply "$D/patch.diff" || { say "patch does not apply"; exit 3; }
   for c in "${CHECKS[@]}"; do
-    case "$c" in
-      C01|C02|C03|C04|C05|C06|C07|C08|C11|C12|C13|C14|C15|C42|C46|C47) bin=lv-types ;;
-      C43|C44|C45) bin=lv-grpc ;;
-      *) bin=lv-node ;;
-    esac
-    if ! (cd $L/harness && cargo build --release -p $bin >$L/build.log 2>&1); then say "CHECK $c on seeded $ID: harness build failed (exit 2)"; tail -5 $L/build.log >>"$LOG"; continue; fi
     s=$(date +%s)
-    out=$(cd $L/verif && VERIF_ROOT=$L/verif timeout 3000 $L/harness/target/release/$bin $c --tier ${TIER:-quick} 2>&1); rc=$?
+    out=$(VERIF_HARNESS=$L/harness VERIF_ROOT=$L/verif /verif/check $c --tier ${TIER:-quick} 2>&1); rc=$?
     e=$(date +%s)
     say "CHECK $c on seeded $ID: rc=$rc $((e-s))s :: $(echo "$out" | grep -E '^(OK|VIOLATION|INCONCLUSIVE|  signature|  observed)' | head -4 | tr '\n' '|' | cut -c1-600)"
   done
